@@ -231,6 +231,7 @@ type connOp struct {
 	amt   int64
 	k     int // which in-flight call of that source to finish (index modulo)
 	panic bool
+	scrub int // 1: the handler deletes the source header before returning, 2: rewrites it to another source
 }
 
 func TestC14_ConnProjection(t *testing.T) {
@@ -246,6 +247,7 @@ func TestC14_ConnProjection(t *testing.T) {
 				amt:   rapid.SampledFrom([]int64{1, 1, 1, 2, 3}).Draw(t, "amt"),
 				k:     rapid.IntRange(0, 5).Draw(t, "k"),
 				panic: rapid.IntRange(0, 4).Draw(t, "panic") == 0,
+				scrub: rapid.SampledFrom([]int{0, 0, 0, 1, 2}).Draw(t, "scrub"),
 			})
 		}
 		run := func(only int) [][]string {
@@ -278,7 +280,15 @@ func TestC14_ConnProjection(t *testing.T) {
 					i := op.k % len(inflight[op.src])
 					c := inflight[op.src][i]
 					inflight[op.src] = append(inflight[op.src][:i], inflight[op.src][i+1:]...)
-					if err := c.Finish(sim.Outcome{Status: 200, Panic: op.panic}); err != nil {
+					o := sim.Outcome{Status: 200, Panic: op.panic}
+					switch op.scrub {
+					case 1:
+						o.Mutate = func(r *http.Request) { r.Header.Del("X-Src") }
+					case 2:
+						other := "s" + strconv.Itoa((op.src+1)%nsrc)
+						o.Mutate = func(r *http.Request) { r.Header.Set("X-Src", other) }
+					}
+					if err := c.Finish(o); err != nil {
 						t.Fatalf("%v", err)
 					}
 					out[op.src] = append(out[op.src], "finish")
